@@ -35,6 +35,11 @@ class SimDeadlock(HarnessError):
     pass
 
 
+class StepCapExceeded(Exception):
+    """The code under test kept running far beyond what any terminating execution of the
+    scenario needs (a livelock / busy loop), or every thread is blocked for good."""
+
+
 class TState:
     __slots__ = (
         "tid",
